@@ -513,17 +513,17 @@ def corpus():
 
 
 def gen_cases(rng, tier):
-    n = {"quick": 1, "thorough": 6, "search": 2}[tier]
+    n = {"quick": 1, "thorough": 5, "search": 2}[tier]
     cases = []
     for fmt in AUTHOR_FORMATS:
-        for _ in range(28 * n):
+        for _ in range(40 * n):
             cases.append(_read_case(rng, fmt))
-    for _ in range(260 * n):
+    for _ in range(360 * n):
         cases.append(_auto_case(rng))
     for w, r in WRITE_PAIRS:
-        for _ in range((70 if w in ("tab", "text") else 45) * n):
+        for _ in range((100 if w in ("tab", "text") else 60) * n):
             cases.append(_rt_case(rng, w, r))
-    for _ in range(60 * n):
+    for _ in range(80 * n):
         cases.append(_seg_case(rng))
     if tier != "search":
         for _ in range(20 * n):
@@ -835,7 +835,8 @@ def judge(case, impl, resp):
             return ["raises_" + impl["__error__"]], [], None
         if "fmt_error" in impl:
             if merr:
-                return ([] if malformed else ["auto_detection_fails"]), [], None
+                # no claim when the caller named the format through the file name, or the content is ambiguous
+                return ([] if malformed or case["in"].get("direct") is None else ["auto_detection_fails"]), [], None
             return [], [f"sniff raised but the model says {out}"], None
         if merr:
             return [], [f"model sniff error but the code says {impl.get('fmt')}"], None
